@@ -446,8 +446,8 @@ def number_lookahead(check: Check, repo: Repo) -> None:
         (n for n in walk_body(fn) if isinstance(n, ast.If) and n.body and isinstance(n.body[0], ast.Raise)),
         key=lambda n: n.lineno,
     )
-    if len(raises) < 2:
-        raise AnalysisError("read_number: expected >= 2 guarded raises")
+    if not raises:
+        raise AnalysisError("read_number: no guarded raise found")
 
     def accepted(test: ast.expr) -> set[str]:
         from sa.tables import inline_locals
@@ -467,6 +467,10 @@ def number_lookahead(check: Check, repo: Repo) -> None:
     want = SPEC_NAME_START | {"."}
     check.ob(rule, final, "characters rejected after a number", got == want,
              f"rejects {len(got)} chars; differs from '.'+NameStart on {sorted(got ^ want)!r}")
+    if len(raises) < 2:
+        # the leading-zero test lives in a helper: its placement is NUMBER-PARTS' business, its character class is not decided here
+        check.note(number_lookahead_zero_test="not in read_number itself (helper); only the final lookahead was decided")
+        return
     zero = raises[0]
     got0 = accepted(zero.test)
     pz = parent(zero)
